@@ -164,6 +164,11 @@ func bashEquiv(r *Run, c *gosym.Ctx, sh Shape, o eqOpts) (out eqOutcome) {
 		}
 		x.Expected = ModelStr(refOut, m)
 		x.ExpCode = int(in.Exit)
+		if in.LazyRead {
+			// the program reads a variable and then, in the same statement, calls a function that assigns it: a
+			// recorded defect class of its own (the emitted statement sees the new value)
+			x.Sub = "variable-read-before-modifying-call"
+		}
 		if o.CompareFiles {
 			x.ExpFiles = map[string]string{}
 			for p, v := range in.Files {
